@@ -1383,7 +1383,9 @@ class Py2Cpp(ITranspiler):
 		projection_type_raw = self.reflections.type_of(node.projection)
 		projection_type_key = self.to_accessible_name(projection_type_raw.attrs[0])
 		projection_type_value = self.to_accessible_name(projection_type_raw.attrs[1])
-		projection_key, projection_value = BlockParser.break_separator(projection[1:-1], ',')
+		# キーと値は構文木から個別にトランスパイルする ※描画済みの文字列`{key, value}`をブロック解析で分割すると、`x << 1`や`a < b`の`<`を括弧の開始と見做して分割に失敗する
+		pair = node.projection.as_a(defs.Pair)
+		projection_key, projection_value = self.transpile(pair.first), self.transpile(pair.second)
 		comp_vars = {'projection_key': projection_key, 'projection_value': projection_value, 'comp_for': fors[0], 'condition': condition, 'projection_types': [projection_type_key, projection_type_value]}
 		return self.render(node, f'comp/{node.classification}', vars=comp_vars)
 
